@@ -62,6 +62,9 @@ def proved(run):
             def __pyvc_contains__(self, interp, x):
                 return I.Z(self.b) if x == self.member else False
 
+            def __pyvc_iter__(self, interp):
+                return []
+
         class Machine:
             def __pyvc_getattr__(self, interp, nm, node):
                 if nm == "add_arc":
@@ -110,9 +113,9 @@ def proved(run):
         g = {"interegular": interegular, "anything_else": anything_else, "string": Bag(printable="ab"), "WFSA": I.Native("WFSA", lambda i2, a, kw: Machine()),
              "Float": "Float", "warnings": Bag(warn=I.Native("warn", lambda i2, a, kw: None))}
         # `rejection_states = [e for e in fsm.states if not fsm.islive(e)]` is replaced by its contract: the set of dead states
-        for n in ast.walk(fn):
-            if isinstance(n, ast.ListComp) and "islive" in ast.unparse(n):
-                it.expr_hooks[id(n)] = lambda i2, node, env: BoolSet(state_j, dead)
+        # `rejection_states` (however it is computed: fsm.islive or a liveness fixed point over the character set) is replaced
+        # by its contract: the set of dead states, here one symbolic Boolean for the generic target j
+        it.assign_hooks["rejection_states"] = lambda i2, v: BoolSet(state_j, dead)
         fobj = I.FuncObj(fn, I.Env(None, g), "interegular_to_wfsa")
         try:
             it.call_func(fobj, ["pattern"], {"charset": {"x", "y"}})
